@@ -11,7 +11,7 @@ NSMAPS = [
 ]
 
 
-def make_tree(rnd, profile):
+def make_tree(rnd, profile, modes=None):
     """-> (top, label).  The model and the oracles always read the LIVE tree, so parser quirks are inputs."""
     tg = gen_trees.XGen(rnd)
     if profile in ('core', 'contains', 'case', 'odd'):
@@ -34,7 +34,10 @@ def make_tree(rnd, profile):
             mode = rnd.choice(['api', 'apixml', 'frag'])
     elif profile == 'forms':
         ab = tg.forms_doc()
-        mode = rnd.choice(['api', 'html.parser', 'lxml', 'html5lib', 'api'])
+        mode = rnd.choice(['api', 'html.parser', 'lxml', 'html5lib', 'api', 'xhtml'])
+    elif profile == 'radios':
+        ab = tg.radios_doc()
+        mode = rnd.choice(['xhtml', 'xhtml', 'api', 'apixml', 'html.parser'])
     elif profile == 'langdir':
         ab = tg.langdir_doc()
         mode = rnd.choice(['api', 'html.parser', 'lxml', 'html5lib', 'api', 'xhtml'])
@@ -51,6 +54,8 @@ def make_tree(rnd, profile):
             mode = rnd.choice(['html.parser', 'lxml', 'xhtml'])
     else:
         raise ValueError(profile)
+    if modes is not None and mode not in modes:
+        mode = rnd.choice(modes)
     with warnings.catch_warnings():
         warnings.simplefilter('ignore')
         if mode == 'api':
@@ -91,11 +96,11 @@ def std_ops(rnd, sc, light=False):
     return ops
 
 
-def build(rnd, profile, n_trees, sels_per_tree, feats=None, depth=2, ast=True, light=False, all_match=False):
+def build(rnd, profile, n_trees, sels_per_tree, feats=None, depth=2, ast=True, light=False, all_match=False, directed=0, modes=None):
     """-> list of scenarios; sc.meta[pattern] = ast (or None)"""
     out = []
     for _ in range(n_trees):
-        top, label = make_tree(rnd, profile)
+        top, label = make_tree(rnd, profile, modes)
         sc = e1.Scenario(top, label)
         sc.meta = {}
         pools = gen_selectors.pools_from_soup(top)
@@ -104,13 +109,13 @@ def build(rnd, profile, n_trees, sels_per_tree, feats=None, depth=2, ast=True, l
         if profile == 'ns':
             nsmap = rnd.choice(NSMAPS)
             prefixes = [k for k in (nsmap or {}) if k] or ['a']
-        for _ in range(sels_per_tree):
+        for i_sel in range(sels_per_tree):
             if ast:
                 f = feats or {'core': ('core',), 'ns': ('core', 'ns'), 'case': ('core', 'case'),
                               'contains': ('core', 'contains'), 'langdir': ('core', 'lang')}.get(profile, ('core',))
                 pl = dict(pools)
                 ag = gen_selectors.AGen(rnd, prefixes=prefixes, feats=f, **pl)
-                s, a = ag.selector(depth)
+                s, a = ag.directed(top) if i_sel < directed else ag.selector(depth)
             else:
                 pl = dict(pools)
                 f = feats or ('core', 'state', 'lang', 'dir', 'contains', 'misc')
